@@ -14,8 +14,12 @@
    * commodity ::= one or more characters outside non_commodity_chars (the doc omits the +);
      amount-expr ::= comma-decimal sp* commodity?.
    * value-expr / paren-expr / add-expr / mul-expr / unary-expr as written, with the nesting
-     of parentheses bounded: `doc_value_expr d` allows d levels, the grammar uses d = 100
-     (MAX_EXPR_DEPTH, known finding F7).
+     of parentheses bounded: `doc_value_expr d h` allows d levels, the grammar uses d = 100
+     (MAX_EXPR_DEPTH, known finding F7), and with the height of the syntax tree bounded: h
+     is that height (an amount 1; parentheses, a minus sign and an operator one more than
+     their tallest operand; a negative literal in the place of an operand counts 2, it is
+     read as the negation of the literal), the grammar uses h <= 256 (MAX_EXPR_HEIGHT,
+     finding C06-F23: in particular no chain of more than 255 operators).
 
    Dates
    * date ::= yyyy sep m sep d with a four digit year, one or two digit month and day, both
@@ -67,7 +71,9 @@
      a later line and the lines in between are lost                     (no "(" at the start)
    * a date that is not in the calendar, 2024/02/30                      (chrono_date)
    * a number that does not fit 96 bits / 28 places                      (fits)
-   * parentheses nested deeper than 100                                  (depth index, F7) *)
+   * parentheses nested deeper than 100                                  (depth index, F7)
+   * an expression whose syntax tree is taller than 256, e.g. 256 numbers joined by "+" in
+     parentheses                                                         (height index, C06-F23) *)
 From Coq Require Import List NArith Bool.
 From Okv Require Import Model.Lit Model.LitSpec Model.Comb Model.ParseExpr Model.ParseMeta
   Model.ParsePosting Model.ParseTxn Model.ParseDirective Model.DocGrammar Model.RoundTripSpec.
@@ -90,29 +96,40 @@ Inductive doc_amount : list N -> Prop :=
 Definition add_char (c : N) : Prop := c = 43 \/ c = 45.      (* + - *)
 Definition mul_char (c : N) : Prop := c = 42 \/ c = 47.      (* * / *)
 
+(* 1 when the text starts with a minus sign *)
+Definition neg_head (x : list N) : nat :=
+  match x with
+  | c :: _ => if c =? 45 then 1%nat else 0%nat
+  | [] => 0%nat
+  end.
+
 (* value-expr ::= amount-expr | paren-expr ; paren-expr ::= "(" sp* add-expr sp* ")"
    add-expr ::= mul-expr (sp* [+-] sp* mul-expr)*
    mul-expr ::= unary-expr (sp* [*/] sp* unary-expr)*
    unary-expr ::= "-"? value-expr
-   The index bounds the nesting of parentheses. *)
-Inductive doc_value_expr : nat -> list N -> Prop :=
-| DV_amount : forall d x, doc_amount x -> doc_value_expr d x
-| DV_paren : forall d s1 x s2, sps0 s1 -> doc_add d x -> sps0 s2 ->
-             doc_value_expr (S d) ([40] ++ s1 ++ x ++ s2 ++ [41])
-with doc_add : nat -> list N -> Prop :=
-| DA_one : forall d x, doc_mul d x -> doc_add d x
-| DA_more : forall d x s1 op s2 y, doc_add d x -> sps0 s1 -> add_char op -> sps0 s2 -> doc_mul d y ->
-            doc_add d (x ++ s1 ++ [op] ++ s2 ++ y)
-with doc_mul : nat -> list N -> Prop :=
-| DM_one : forall d x, doc_unary d x -> doc_mul d x
-| DM_more : forall d x s1 op s2 y, doc_mul d x -> sps0 s1 -> mul_char op -> sps0 s2 -> doc_unary d y ->
-            doc_mul d (x ++ s1 ++ [op] ++ s2 ++ y)
-with doc_unary : nat -> list N -> Prop :=
-| DU_pos : forall d x, doc_value_expr d x -> doc_unary d x
-| DU_neg : forall d x, doc_value_expr d x -> doc_unary d (45 :: x).
+   The first index bounds the nesting of parentheses, the second is the height of the syntax
+   tree (of the tree the parser builds: a value-expr that starts with a minus sign is a negative
+   literal, and as a unary-expr it is read as the negation of the positive literal). *)
+Inductive doc_value_expr : nat -> nat -> list N -> Prop :=
+| DV_amount : forall d x, doc_amount x -> doc_value_expr d 1 x
+| DV_paren : forall d h s1 x s2, sps0 s1 -> doc_add d h x -> sps0 s2 ->
+             doc_value_expr (S d) (S h) ([40] ++ s1 ++ x ++ s2 ++ [41])
+with doc_add : nat -> nat -> list N -> Prop :=
+| DA_one : forall d h x, doc_mul d h x -> doc_add d h x
+| DA_more : forall d h1 h2 x s1 op s2 y, doc_add d h1 x -> sps0 s1 -> add_char op -> sps0 s2 -> doc_mul d h2 y ->
+            doc_add d (S (Nat.max h1 h2)) (x ++ s1 ++ [op] ++ s2 ++ y)
+with doc_mul : nat -> nat -> list N -> Prop :=
+| DM_one : forall d h x, doc_unary d h x -> doc_mul d h x
+| DM_more : forall d h1 h2 x s1 op s2 y, doc_mul d h1 x -> sps0 s1 -> mul_char op -> sps0 s2 -> doc_unary d h2 y ->
+            doc_mul d (S (Nat.max h1 h2)) (x ++ s1 ++ [op] ++ s2 ++ y)
+with doc_unary : nat -> nat -> list N -> Prop :=
+| DU_pos : forall d h x, doc_value_expr d h x -> doc_unary d (neg_head x + h) x
+| DU_neg : forall d h x, doc_value_expr d h x -> doc_unary d (S h) (45 :: x).
 
-(* the documented value expression: nesting at most MAX_EXPR_DEPTH *)
-Definition doc_vexpr (x : list N) : Prop := doc_value_expr max_expr_depth x.
+(* the documented value expression: nesting at most MAX_EXPR_DEPTH, height at most
+   MAX_EXPR_HEIGHT *)
+Definition doc_vexpr (x : list N) : Prop :=
+  exists h, (h <= max_expr_height)%nat /\ doc_value_expr max_expr_depth h x.
 
 (* ================================================================================== *)
 (* Dates                                                                               *)
